@@ -14,17 +14,30 @@
 (*               is not a "remote" (`remote_ids` enumerates sigrefs)       *)
 (*   "signed"    references and a rad/sigrefs branch that verifies         *)
 (*   "corrupt"   a rad/sigrefs branch that does not load / verify          *)
-(* and the delegate set of the repository's identity document (read from   *)
-(* the canonical refs/rad/id, which is not inside any namespace).          *)
+(* and the delegate set of the repository's identity document, read from   *)
+(* the canonical refs/rad/id (which is not inside any namespace).  That    *)
+(* read can FAIL: `iddoc` says whether the document at refs/rad/id loads   *)
+(*   "ok"           it loads; its delegate set is `delegates`              *)
+(*   "missing"      refs/rad/id points at a commit without a document      *)
+(*   "unsupported"  the document there has an unsupported version          *)
+(* When it does not load, `delegates` keeps the delegate set of the LAST   *)
+(* READABLE document (a ghost: the code cannot see it): these are still    *)
+(* the peers whose namespaces must not be lost, which is what the          *)
+(* invariants quantify over.  Cleaning with an unreadable document must    *)
+(* report the error and touch nothing.                                     *)
 (*                                                                         *)
-(* Actions: Clean (the call under test) and Fetch (the environment puts a  *)
+(* Actions: Clean (the call under test), Fetch (the environment puts a     *)
 (* removed peer's namespace back, so that cleaning can be observed again   *)
-(* on a repository that has already been cleaned).                         *)
+(* on a repository that has already been cleaned) and BreakId (the         *)
+(* environment re-points refs/rad/id at something that is not a readable   *)
+(* identity document).                                                     *)
 (*                                                                         *)
 (* Variant = "and" models the skip condition with && instead of ||         *)
 (* ("local or delegate" -> "local and delegate"), "loadfail" removes the   *)
-(* repository when the local sigrefs fail to load instead of being absent: *)
-(* both must be rejected by TLC (sanity configs).                          *)
+(* repository when the local sigrefs fail to load instead of being absent, *)
+(* "emptyset" carries on with an EMPTY delegate set when the identity      *)
+(* document fails to load (log and continue instead of returning the       *)
+(* error): all three must be rejected by TLC (sanity configs).             *)
 (***************************************************************************)
 EXTENDS Integers, Sequences, FiniteSets, TLC
 
@@ -32,15 +45,17 @@ CONSTANTS Node,        \* peers
           Local,       \* the local peer, \in Node
           Delegates,   \* set of possible delegate sets (each a non-empty subset of Node)
           NsStates,    \* [Node -> set of namespace states allowed initially]
+          IdStates,    \* set of initial values of iddoc
           MaxOps,      \* behaviours have at most this many actions
-          Variant      \* "code" | "and" | "loadfail"
+          Variant      \* "code" | "and" | "loadfail" | "emptyset"
 
 VARIABLES exists,      \* the repository exists in storage
           ns,          \* [Node -> "absent" | "unsigned" | "signed" | "corrupt"]
-          delegates,   \* delegate set of the identity document (does not change here)
+          delegates,   \* delegate set of the last readable identity document (does not change here)
+          iddoc,       \* does the document at refs/rad/id load: "ok" | "missing" | "unsupported"
           last,        \* ghost: the last action with its pre-state and result
           hist         \* ghost: actions so far with the state after each (for replay)
-vars == <<exists, ns, delegates, last, hist>>
+vars == <<exists, ns, delegates, iddoc, last, hist>>
 
 HasSigrefs(s) == s \in {"signed", "corrupt"}
 Remotes(f) == {n \in Node : HasSigrefs(f[n])}       \* `Repository::remote_ids`
@@ -49,25 +64,36 @@ AllAbsent == [n \in Node |-> "absent"]
 Init == /\ exists = TRUE
         /\ ns \in {f \in [Node -> {"absent", "unsigned", "signed", "corrupt"}] : \A n \in Node : f[n] \in NsStates[n]}
         /\ delegates \in Delegates
+        /\ iddoc \in IdStates
         /\ last = [op |-> "init", pre |-> AllAbsent, res |-> "ok", ret |-> {}]
         /\ hist = <<>>
 
 Record(op, arg, res, ret, e, f) ==
-    hist' = Append(hist, [op |-> op, arg |-> arg, pre |-> ns, res |-> res, ret |-> ret, exists |-> e, ns |-> f])
+    hist' = Append(hist, [op |-> op, arg |-> arg, pre |-> ns, res |-> res, ret |-> ret, exists |-> e, ns |-> f,
+                          iddoc |-> IF op = "breakid" THEN arg ELSE iddoc])
 
 \* `Repository::clean(local)`: for every remote that is neither the local peer nor a delegate,
 \* delete every reference under its namespace; return the remotes that were cleaned.
-Protected(n) == IF Variant = "and" THEN n = Local /\ n \in delegates
-                ELSE n = Local \/ n \in delegates
+\* what the code takes for the delegate set: `self.delegates()?` -- only available when the document loads
+SeenDelegates == IF iddoc = "ok" THEN delegates ELSE {}
+Protected(n) == IF Variant = "and" THEN n = Local /\ n \in SeenDelegates
+                ELSE n = Local \/ n \in SeenDelegates
 Cleaned == {n \in Remotes(ns) : ~Protected(n)}
 
 \* `Storage::clean(rid)`:
 \*   has_sigrefs = SignedRefsAt::load(local, repo)?.is_some()      (a load error is returned)
 \*   if has_sigrefs { repo.clean(local) } else { remotes = repo.remote_ids(); repo.remove(); Ok(remotes) }
+\* and `repo.clean` starts with `let delegates = self.delegates()?` (an unreadable identity document is an
+\* error, returned before anything is deleted); without sigrefs of ours the document is never read.
 Clean ==
     /\ exists /\ Len(hist) < MaxOps
     /\ IF ns[Local] = "corrupt" /\ Variant # "loadfail"
        THEN \* the error is propagated, nothing is touched
+            /\ UNCHANGED <<exists, ns>>
+            /\ last' = [op |-> "clean", pre |-> ns, res |-> "err", ret |-> {}]
+            /\ Record("clean", Local, "err", {}, exists, ns)
+       ELSE IF ns[Local] = "signed" /\ iddoc # "ok" /\ Variant # "emptyset"
+       THEN \* the delegates cannot be determined: error, nothing is touched
             /\ UNCHANGED <<exists, ns>>
             /\ last' = [op |-> "clean", pre |-> ns, res |-> "err", ret |-> {}]
             /\ Record("clean", Local, "err", {}, exists, ns)
@@ -80,7 +106,7 @@ Clean ==
             /\ exists' = FALSE /\ ns' = AllAbsent
             /\ last' = [op |-> "clean", pre |-> ns, res |-> "ok", ret |-> Remotes(ns)]
             /\ Record("clean", Local, "ok", Remotes(ns), FALSE, AllAbsent)
-    /\ UNCHANGED delegates
+    /\ UNCHANGED <<delegates, iddoc>>
 
 \* the environment fetches a peer that the last cleanup removed
 Fetch(n) ==
@@ -89,9 +115,19 @@ Fetch(n) ==
     /\ ns' = [ns EXCEPT ![n] = "signed"]
     /\ last' = [op |-> "fetch", pre |-> ns, res |-> "ok", ret |-> {}]
     /\ Record("fetch", n, "ok", {}, exists, ns')
-    /\ UNCHANGED <<exists, delegates>>
+    /\ UNCHANGED <<exists, delegates, iddoc>>
 
-Next == Clean \/ \E n \in Node : Fetch(n)
+\* the environment re-points refs/rad/id at a commit that carries no readable identity document
+\* (k = "missing": no document at all; "unsupported": a document of a version this client refuses)
+BreakId(k) ==
+    /\ exists /\ Len(hist) < MaxOps
+    /\ last.op = "clean" /\ iddoc = "ok" /\ k \in {"missing", "unsupported"}
+    /\ iddoc' = k
+    /\ last' = [op |-> "breakid", pre |-> ns, res |-> "ok", ret |-> {}]
+    /\ Record("breakid", k, "ok", {}, exists, ns)
+    /\ UNCHANGED <<exists, ns, delegates>>
+
+Next == Clean \/ (\E n \in Node : Fetch(n)) \/ (\E k \in {"missing", "unsupported"} : BreakId(k))
 Spec == Init /\ [][Next]_vars
 
 -----------------------------------------------------------------------------
@@ -109,7 +145,9 @@ ProtectedUntouched == (AfterClean /\ exists) => \A n \in Node : (n = Local \/ n 
 WholeRepoOnlyWithoutSigrefs == (AfterClean /\ ~exists) => ~HasSigrefs(last.pre[Local])
 \* (the converse, which the code also guarantees: without signed refs of ours the repository goes)
 NoSigrefsRemovesRepo == (AfterClean /\ last.pre[Local] \in {"absent", "unsigned"}) => ~exists
-\* a failed cleanup changes nothing
+\* an unreadable identity document makes cleanup fail (when it gets as far as reading it) ...
+UnreadableIsError == (last.op = "clean" /\ iddoc # "ok" /\ HasSigrefs(last.pre[Local])) => last.res = "err"
+\* ... and a failed cleanup changes nothing
 ErrorIsNoop == (last.op = "clean" /\ last.res = "err") => (exists /\ ns = last.pre)
 \* what is reported is what was removed (remotes, i.e. namespaces with sigrefs)
 ReportedIsRemoved == AfterClean => last.ret = {n \in Gone : HasSigrefs(last.pre[n])}
